@@ -218,8 +218,35 @@ pub fn freq_from_counts<const M: usize>() -> (FrequencyMatrix<Dna>, [[f32; 5]; M
     (fm, f)
 }
 
+/// quick-tier variant: counts in 0..=1, pseudocount 0.5
+fn freq_from_counts_small<const M: usize>() -> (FrequencyMatrix<Dna>, [[f32; 5]; M]) {
+    let mut d = DenseMatrix::<u32, U5>::new(M);
+    for i in 0..M {
+        for j in 0..5 {
+            d[i][j] = nd::u8_in(0, 1) as u32;
+        }
+    }
+    let cm = CountMatrix::<Dna>::new(d).unwrap();
+    let fm = cm.to_freq(0.5);
+    let mut f = [[0f32; 5]; M];
+    for i in 0..M {
+        for j in 0..5 {
+            f[i][j] = fm.matrix()[i][j];
+        }
+    }
+    (fm, f)
+}
+
 fn weight_score_body<const M: usize>() {
-    let (fm, f) = freq_from_counts::<M>();
+    weight_score_with::<M>(freq_from_counts::<M>());
+}
+
+fn weight_score_small_body<const M: usize>() {
+    weight_score_with::<M>(freq_from_counts_small::<M>());
+}
+
+fn weight_score_with<const M: usize>(input: (FrequencyMatrix<Dna>, [[f32; 5]; M])) {
+    let (fm, f) = input;
     let (bg, b) = any_background();
     let wm = fm.to_weight(bg.clone());
     let two_step = wm.to_scoring();
@@ -356,29 +383,31 @@ fn background_sequence_body() {
     crate::witness!(denom == 2 && !unknown, "two known symbols, wildcard excluded");
 }
 
-//@ C09 quick 900 CountMatrix::from_sequences, DNA, 3 sequences x 2 symbols, all symbolic
+//@ C09 quick 800 CountMatrix::from_sequences, DNA, 3 sequences x 2 symbols, all symbolic
 harness!(none, 8, c09_count_dna_n3_w2, count_body3::<Dna, 2>());
-//@ C09 quick 900 CountMatrix::from_sequences, protein, 2 sequences x 2 symbols
+//@ C09 quick 800 CountMatrix::from_sequences, protein, 2 sequences x 2 symbols
 harness!(none, 24, c09_count_protein_n2_w2, count_body2::<Protein, 2>());
-//@ C09 quick 900 CountMatrix::from_sequences rejects unequal lengths, accepts the empty set
+//@ C09 quick 800 CountMatrix::from_sequences rejects unequal lengths, accepts the empty set
 harness!(none, 8, c09_count_unequal, unequal_body());
-//@ C09 quick 3600 to_freq: 1 row, counts <= 7, pseudocount vector k/4 (k <= 4) and scalar pseudocount
+//@ C09 quick 800 to_weight + to_scoring (one-step == two-step) + bases 10 and 3, 1 row, counts in {0,1}, pseudocount 0.5, symbolic background k/8
+log_harness!(8, c09_weight_score_small_m1, weight_score_small_body::<1>());
+//@ C09 thorough 10800 to_freq: 1 row, counts <= 7, pseudocount vector k/4 (k <= 4) and scalar pseudocount
 harness!(none, 8, c09_freq_m1, freq_body::<1>());
 //@ C09 thorough 10800 to_freq: 2 rows
 harness!(none, 8, c09_freq_m2, freq_body::<2>());
-//@ C09 quick 1800 FrequencyMatrix::new accepts exactly the rows within 0.01 of one (lattice k/64), 2 rows
+//@ C09 quick 800 FrequencyMatrix::new accepts exactly the rows within 0.01 of one (lattice k/64), 2 rows
 harness!(none, 8, c09_freq_validation_m2, freq_validation_body::<2>());
-//@ C09 quick 3600 to_weight + to_scoring (one-step == two-step) + bases 10 and 3, 1 row, symbolic counts / pseudocount / background
+//@ C09 thorough 10800 to_weight + to_scoring (one-step == two-step) + bases 10 and 3, 1 row, symbolic counts / pseudocount / background
 log_harness!(8, c09_weight_score_m1, weight_score_body::<1>());
-//@ C09 quick 3600 WeightMatrix::rescale, symbolic old/new backgrounds
+//@ C09 thorough 10800 WeightMatrix::rescale, symbolic old/new backgrounds
 log_harness!(8, c09_rescale, rescale_body());
-//@ C09 quick 3600 min_score <= score_position <= max_score, 2 rows, cells k/8 or +-3e38, wildcard-free window
+//@ C09 quick 800 min_score <= score_position <= max_score, 2 rows, cells k/8 or +-3e38, wildcard-free window
 harness!(none, 8, c09_minmax_m2, minmax_body::<2>());
-//@ C09 quick 900 Background::new accepts exactly [0,1]-valued vectors summing to one (lattice k/64)
+//@ C09 quick 800 Background::new accepts exactly [0,1]-valued vectors summing to one (lattice k/64)
 harness!(none, 8, c09_background_new, background_new_body());
-//@ C09 quick 1800 Background::from_counts
+//@ C09 quick 800 Background::from_counts
 harness!(none, 8, c09_background_counts, background_counts_body());
-//@ C09 quick 1800 Background::from_sequence (3 symbolic symbols, wildcard counted or not)
+//@ C09 quick 800 Background::from_sequence (3 symbolic symbols, wildcard counted or not)
 harness!(none, 8, c09_background_sequence, background_sequence_body());
 //@ C09 thorough 7200 weight/score conversions, 2 rows
 log_harness!(8, c09_weight_score_m2, weight_score_body::<2>());
